@@ -3,6 +3,8 @@ package props
 import (
 	"bytes"
 	"fmt"
+	"os"
+	"path/filepath"
 
 	"gitlab.com/gomidi/midi/v2/smf"
 
@@ -33,7 +35,7 @@ func init() {
 			"the strict validator harness/ref/smf.go (header length 6, ntrks == number of MTrk chunks, exact chunk lengths, exactly one end-of-track and last, canonical VLQs of at most 4 bytes, running status only directly after a channel event of the same track, no alien chunks, no trailing bytes)",
 			"for deltas above 0x0FFFFFFF (5-byte form accepted by the API) only the round trip is required, not validity (statement)",
 		},
-		Require: []string{"files_validated", "vlq_values", "vlq_5byte_values", "bytes_emitted", "determinism_checks", "chunk_boundary_files", "length_vlq_boundaries", "running_status_events", "body_sizes_swept", "write_change_write_values"},
+		Require: []string{"writefile_onto_existing", "files_validated", "vlq_values", "vlq_5byte_values", "bytes_emitted", "determinism_checks", "chunk_boundary_files", "length_vlq_boundaries", "running_status_events", "body_sizes_swept", "write_change_write_values"},
 		Run:     runC03,
 	})
 }
@@ -132,6 +134,75 @@ func runC03(c *mon.Ctx) {
 		}
 		if c03Check(c, a.s, a.sh, in, true) != nil {
 			c.Count("write_change_write_values", 1)
+		}
+	})
+
+	// ---- WriteFile onto a path that already holds something (a longer, shorter or equally long earlier
+	// export, foreign bytes, an empty file): the file must afterwards hold exactly the bytes WriteTo emits
+	c.Each("writefile-existing", c.N(600, 30_000), func(i int64, r *mon.Rand) {
+		if c.Dir == "" {
+			return
+		}
+		a := buildHistory(r, 0x0FFFFFFF, false)
+		in := map[string]any{"history": a.desc}
+		b := c03Check(c, a.s, a.sh, in, true)
+		if b == nil {
+			return
+		}
+		path := filepath.Join(c.Dir, fmt.Sprintf("c03-existing-%d.mid", c.Shard))
+		defer os.Remove(path)
+		var old []byte
+		switch k := i % 6; k {
+		case 0: // a longer earlier export
+			var other bytes.Buffer
+			o := buildHistory(r, 0x0FFFFFFF, false)
+			o.s.WriteTo(&other)
+			old = append(other.Bytes(), b...)
+			in["existing"] = "a longer valid SMF"
+		case 1:
+			old = append(append([]byte(nil), b...), 0)
+			in["existing"] = "one byte longer"
+		case 2:
+			old = r.Bytes(len(b) + r.Range(1, 5000))
+			in["existing"] = "longer foreign bytes"
+		case 3:
+			old = r.Bytes(len(b))
+			in["existing"] = "equally long foreign bytes"
+		case 4:
+			old = r.Bytes(len(b) / 2)
+			in["existing"] = "shorter"
+		default:
+			old = []byte{}
+			in["existing"] = "empty file"
+		}
+		in["existing_size"] = len(old)
+		if err := os.WriteFile(path, old, 0o644); err != nil {
+			return
+		}
+		var err error
+		if c.Guard("panic:WriteFile", in, func() { err = a.s.WriteFile(path) }) {
+			return
+		}
+		if err != nil {
+			c.Violation("writefile-error", "WriteFile onto an existing file fails: "+err.Error(), in, nil, err.Error())
+			return
+		}
+		got, rerr := os.ReadFile(path)
+		if rerr != nil {
+			c.Violation("writefile-error", "the file written by WriteFile cannot be read: "+rerr.Error(), in, nil, nil)
+			return
+		}
+		c.Count("writefile_onto_existing", 1)
+		if !bytes.Equal(got, b) {
+			msg := fmt.Sprintf("after WriteFile onto an existing file of %d bytes (%s) the file holds %d bytes, WriteTo emits %d", len(old), in["existing"], len(got), len(b))
+			if len(got) > len(b) && bytes.Equal(got[:len(b)], b) {
+				msg += fmt.Sprintf(": %d trailing bytes after the last track", len(got)-len(b))
+			}
+			c.Violation("writefile-bytes", msg, in, mon.Hex(head(b, 60)), mon.Hex(head(got, 60)))
+			return
+		}
+		if _, derr := ref.Decode(got, ref.DecodeOpts{Strict: true}); derr != nil {
+			c.Violation("strict-invalid", fmt.Sprintf("the file written by WriteFile is not a valid SMF 1.0 file: %v", derr), in, nil, derr.Error())
 		}
 	})
 
